@@ -156,6 +156,49 @@ func (ex *Exec) newObj(kind ObjKind, typ types.Type, site string) *Object {
 	return o
 }
 
+// adopt gives allocations made by goroutines a deterministic identity: the object allocated by
+// thread t at a given point of its program is the same object at whatever scheduler step that
+// segment runs (the runs are mutually exclusive), so its state is merged under the guard.
+func (ex *Exec) adopt(st *State, o *Object) *Object {
+	if ex.sched == nil || st.thread == nil {
+		return o
+	}
+	ex.position(st)
+	ex.adoptSeq++
+	key := fmt.Sprintf("%s#%d", st.key, ex.adoptSeq)
+	old, ok := ex.allocCache[key]
+	if !ok {
+		ex.allocCache[key] = o
+		return o
+	}
+	g := st.G
+	tb := ex.tb
+	old.Ghost = old.Ghost && o.Ghost
+	switch o.Kind {
+	case OCell:
+		old.Val = ex.merge(g, o.Val, old.Val)
+	case OVec:
+		for i := range old.Elems {
+			if i < len(o.Elems) {
+				old.Elems[i] = ex.merge(g, o.Elems[i], old.Elems[i])
+			}
+		}
+	case OSym:
+		n := tb.Ite(g, o.Len, ex.idxConst(0))
+		old.Arr = ex.arrCopy(old.Arr, ex.idxConst(0), o.Arr, ex.idxConst(0), n)
+		old.Len = tb.Ite(g, o.Len, old.Len)
+	case OMap:
+		// entries carry their own guards
+	case OChan:
+		old.ChN = tb.Ite(g, o.ChN, old.ChN)
+		old.Closed = tb.And(old.Closed, tb.Not(g))
+		for i := range old.ChBuf {
+			old.ChBuf[i] = ex.merge(g, o.ChBuf[i], old.ChBuf[i])
+		}
+	}
+	return old
+}
+
 func (ex *Exec) nilPtr() *Ptr { return &Ptr{Alts: []PtrAlt{{G: ex.tb.True}}} }
 
 func (ex *Exec) ptrTo(o *Object, path ...PathEl) *Ptr {
@@ -457,8 +500,8 @@ func (ex *Exec) mergePtr(g *Term, x, y *Ptr) *Ptr {
 }
 
 // restrictVal resolves guards decided by ctx inside a value (cheap, shallow for aggregates).
-func (ex *Exec) restrictVal(v Value, ctx map[int]bool) Value {
-	if len(ctx) == 0 {
+func (ex *Exec) restrictVal(v Value, ctx *Ctx) Value {
+	if ctx.empty() {
 		return v
 	}
 	tb := ex.tb
